@@ -136,6 +136,13 @@ claim("C29", "Proof (sequential semantics, registry mutex assumed atomic) that t
       "interleavings of concurrent requests respect the registry mutex (assumed); a state's Close is user code: nothing is claimed about the registry after it ran.",
       ["same-session calls never overlap (needs the thread schedule; the lock/unlock pairing is what is proved)", "every handler defers ReleaseLock after install (structure of the call sites, witnesses only)", "token sealing/opening of the session token (C13 AAD)"])
 
+claim("C30", "Proof (data-flow and ordering contracts) that a batch is externalized only when it has rows and reaches the threshold, that the checksum placed on the pointer is the SHA-256 (32 bytes, hex) of the serialized batch before compression, that what is uploaded is that serialization — zstd-encoded as a whole exactly when the coding declared to the storage is 'zstd' — and the charged raw size is its length; on the resolving side that what was fetched is what is check-summed and then parsed, the checksum (whenever the pointer names one) being computed before the parser sees a byte, and that only a batch that is neither a log batch nor another pointer is ever retained as the result.",
+      "SHA-256 and the IPC/zstd codecs are unknown functions of their inputs.",
+      ["resolved batch equals the original in schema, values and metadata (IPC round trip, codec correctness)", "the comparison of the two checksums itself (the mismatch branch returns before the parser; covered by witnesses only)", "the last-of-several-data-batches choice"])
+claim("C31", "Proof that at most three fetch attempts are made whatever is configured (maxRetries in 1..2, loop invariant, call-site bound), that the first fetch is reachable only when the configured validator accepted the pointer's URL (or none is configured), that every fetch gets the same URL, validator and positive caps; that the redirect policy installed for a fetch follows a redirect only within the hop limit (and defers to a previous policy only then); that a fetch reads at most cap+1 bytes and returns at most the fetch cap (or, for a zstd body, the decompression cap) — decompressZstdCapped's bound —; and that redactExternalURL renders a URL without user info, query or fragment.",
+      "net/http follows redirects through CheckRedirect (assumed); the validator's verdict is the ghost predicate validatorAccepted.",
+      ["error texts never contain the query string (value flow through fmt.Errorf)", "the validator call inside the redirect policy (a call through a captured function value; its refusal path is structural)", "retry delay timing"])
+
 # properties not claimed: reason
 NOT_APPLICABLE = {
     "C11": "relational two-run equivalence between the pipe loop and the HTTP handlers routed through gob, AEAD and Arrow IPC; contracts here are single-run and per function",
